@@ -319,7 +319,7 @@ CLAIMED = {
         "technique": "Coq proof (stream invariant over a fuelled evaluator model with the keyword model plugged in; fuel sufficiency) + differential correspondence",
     },
     "C01": {
-        "text": ("14 theorems (Coq, no axioms) over the evaluator model Eval.v (processor.py's query side, Python "
+        "text": ("13 theorems (Coq, no axioms) over the evaluator model Eval.v (processor.py's query side, Python "
                  "generators as streams): C01_required_sem_partial - for every non-null document and every path of "
                  "the fragment (key incl. Array-of-Hashes pass-through, index, slice, anchor, all five candidate "
                  "loops of a search on '.', a named attribute or a descendant path, all nine operators, inversion, "
@@ -330,7 +330,8 @@ CLAIMED = {
                  "finding F12a (descendant search reaching several nodes), with a _refuted witness and "
                  "non-vacuity Examples (F29, wildcard + filter over a set, is repaired and inside the "
                  "theorem); C01_optional_on_existing_partial "
-                 "(optional = required as streams, nothing created; guard excludes F10 / F16b); exists() iff the "
+                 "(optional = required as streams, nothing created; guard excludes F16b, a branch lacking a creatable "
+                 "segment; F10 - the walk stopping at an intermediate null - is repaired and its clause gone); exists() iff the "
                  "required query yields a node; dot and slash texts of the same segments give equal escaped "
                  "segments (from C08; the step to equal prepared paths is not proved).  Tie: model vs "
                  "implementation on (location, identity) lists, plus the EXTRACTED spec and an independent "
@@ -346,11 +347,13 @@ CLAIMED = {
                  "C09_exists_pure, full theorems since the repair of F16: (h)-(h.a) used to delete h.a from the "
                  "loaded document, the subtraction now reduces a shallow copy).  Creation (Properties/C09b.v, models Create.v / "
                  "Mutate.v): for all well-formed documents and all straight key/index paths with an existing prefix "
-                 "and a missing tail of any lengths, every node that existed before keeps its place, info and value "
-                 "(C09_create_frame, no guard), the path resolves in the new document to the supplied value and "
+                 "and a missing tail of any lengths, every node that existed before keeps its place, info and value - "
+                 "except, when the existing prefix ends at a null with segments to go, that null, which becomes a "
+                 "new container holding the tail (C09_create_frame, no guard, states exactly this) -, the path "
+                 "resolves in the new document to the supplied value and "
                  "sequences are padded exactly to the requested index (C09_create_resolves_partial / "
-                 "C09_create_pads_document_partial; guard = listed findings F10b null in the prefix, F25 tail below "
-                 "a set; _refuted witnesses).  Tie: a deep snapshot (structure + identities + anchors) of the real "
+                 "C09_create_pads_document_partial; guard = listed finding F25 tail below "
+                 "a set, _refuted witness; F10b null in the prefix is repaired and inside the theorems).  Tie: a deep snapshot (structure + identities + anchors) of the real "
                  "document around every query; creation compared node by node with object identities."),
         "design_ref": "DESIGN.md section 4 (C09), docs/C09.md, docs/C09b.md",
         "note": NOTE_COMMON + "  Optional queries that create nodes are F16b / the creation half.",
